@@ -81,7 +81,8 @@ func propExpiryBounds(c *Case) {
 
 		be := newCaseBackend(c, kind, cache.Config{
 			TimeToLive: cfgTTL, ExpirationJitter: jit,
-			DeleteExpiredJobInterval: farFuture, DeleteExpiredAfter: 2 * farFuture,
+			// the janitor never runs here; how long ago an entry expired must not change what Read reports
+			DeleteExpiredJobInterval: 2 * farFuture, DeleteExpiredAfter: []time.Duration{2 * farFuture, 0, time.Second}[c.Pick("DeleteExpiredAfter", 3)],
 		})
 		ref := newRefMap(cfgTTL, jit)
 		n := c.Int("writes", 1, 4)
